@@ -92,7 +92,10 @@ pub struct TreeCfg { pub ops: usize, pub remaps: usize, pub tame: bool, pub hash
 
 pub fn gen_affine(r: &mut Rng) -> Affine3<f32> {
     let mut m = Matrix4::<f32>::identity();
-    match r.below(5) {
+    match r.below(6) {
+        // tiny / huge scales and tiny rotations: products of two of them have genuine entries far below f32::EPSILON
+        5 => { if r.chance(0.6) { for i in 0..3 { m[(i, i)] = *r.pick(&[1e-4f32, 1e-5, 3e-3, 1e4, 1e-8, -1e-4]); } m[(r.below(3), 3)] = gen_tame(r); }
+               else { let a = *r.pick(&[5e-8f32, 1e-6, -3e-7]); let (s, c) = a.sin_cos(); m[(0, 0)] = c; m[(0, 1)] = -s; m[(1, 0)] = s; m[(1, 1)] = c; } }
         0 => for i in 0..3 { m[(i, 3)] = gen_tame(r); },
         1 => for i in 0..3 { m[(i, i)] = *r.pick(&[2.0f32, -1.0, 0.5, 3.0, 1.0]); m[(i, 3)] = gen_tame(r); },
         2 => { let a = gen_tame(r); let (s, c) = a.sin_cos(); m[(0, 0)] = c; m[(0, 1)] = -s; m[(1, 0)] = s; m[(1, 1)] = c; m[(2, 3)] = gen_tame(r); }
